@@ -429,7 +429,8 @@ class Message:
             size = 2 ** (size_exp + 4)
             start = number * size
 
-        if start >= len(self.payload):
+        if start >= len(self.payload) and start > 0:
+            # (Block 0 of an empty body is the empty body.)
             raise error.BadRequest("Block request out of bounds")
 
         end = start + size if start + size < len(self.payload) else len(self.payload)
